@@ -95,10 +95,10 @@ class Worker:
         self.aborted = False
         self.tasks = 0
 
-    def drop(self):
+    def drop(self, clean=True):
         if not self.closed:
             self.closed = True
-            self.sock.close()
+            self.sock.close(clean)
 
 
 def reset_world():
@@ -186,6 +186,7 @@ class Sim:
         self.reply_job_queued = True
         self.timer_fired = []
         self.boot_fired = []
+        self.content_seq = 0
         reset_world()
         rig.install()
         dawgie.context.git_rev = rev
@@ -569,7 +570,9 @@ class Sim:
     def leave(self, i):
         live = [w for w in self.workers if not w.closed]
         if live:
-            live[i % len(live)].drop()
+            # odd picks die without a FIN (connection lost), even ones
+            # close cleanly (connection done)
+            live[i % len(live)].drop(clean=(i % 2 == 0))
 
     def tick(self):
         if self.auto_workers:
@@ -668,6 +671,129 @@ class Sim:
                          dict(m.timing))
         idx = hs.index(u)
         return self.reply(idx, 'success', 0, explicit=list(nv))
+
+    def run_worker(self, outcome):
+        '''one real worker: dawgie.pl.worker.cluster.execute in this process -
+        register, wait (the farm dispatches while it waits), receive a task,
+        run it through worker.Context.run / Task.do on the real store, report
+        on a new connection.  ``outcome``: 0 the algorithm stores new values,
+        1 it raises (failure), 2 it raises NoValidOutputDataError (invalid
+        data).  Returns (unit, newset, outcome name) or None when the farm had
+        nothing for this worker.'''
+        import dawgie
+        import dawgie.db
+        import dawgie.pl.message as message
+        import dawgie.pl.worker
+        import dawgie.pl.worker.cluster as cluster
+        import dawgie.security as sec
+
+        if self.store is None:
+            raise core.HarnessError('run_worker needs the real store')
+        sim = self
+        state = {'unit': None, 'socks': [], 'pumped': 0}
+
+        class NoWork(Exception):
+            pass
+
+        class _Log:
+            def reassign(self, _host):
+                return None
+
+        def hook(alg, ds):
+            tag = f'{ds._task()}.{alg.name()}'
+            tn = ds._tn()
+            rid = ds._bot()._runid()
+            for u in sim.units:
+                if (not u.answered and u.jobid == tag and u.target == tn
+                        and (u.runid == rid or sim.ref.kind[tag] == 'regress')):
+                    state['unit'] = u
+                    u.handed = True
+                    u.worker = state.get('worker')
+                    break
+            # the reply follows: what the checks compare it against
+            state['queued'] = any(j.tag == tag for j in sim.sched.que)
+            sim.work_before = sim.snapshot()
+            sim.work_calls_at = len(sim.calls)
+            if outcome == 1:
+                raise RuntimeError('algorithm failed (injected)')
+            if outcome == 2:
+                raise dawgie.NoValidOutputDataError('no valid data (injected)')
+            sim.content_seq += 1
+            for sv in alg.state_vectors():
+                for vn in sv:
+                    sv[vn].content = [tag, tn, sv.name(), vn, sim.content_seq]
+            ds.update()
+
+        real_connect = sec.connect
+
+        def connect(address):
+            sock = real_connect(address)
+            state['socks'].append(sock)
+            if len(state['socks']) == 1:
+                w = Worker(sock, True, 'hx')
+                w.rev = sim.rev
+                w.registered_ok = True
+                w.active_at_join = sim.fsm.active
+                sim.workers.append(w)
+                state['worker'] = w
+            return sock
+
+        def pump(sock):
+            # the worker blocks on its socket: the farm gets a dispatch tick
+            state['pumped'] += 1
+            if state['pumped'] > 2:
+                raise NoWork()
+            sim.farm.dispatch()
+            sim._scan_workers()
+            if sock.rpos >= len(sock.transport.data):
+                raise NoWork()
+
+        def soft_close():
+            from dawgie.db.shelve.state import DBI
+
+            DBI()._DBI__reopened = False
+
+        saved = (dawgie.pl.worker.LOGGING, dawgie.db.close, rig.PUMP[0],
+                 getattr(dawgie, '_verif_run_hook', None))
+        dawgie.pl.worker.LOGGING = _Log()
+        dawgie.db.close = soft_close
+        rig.PUMP[0] = pump
+        dawgie._verif_run_hook = hook
+        sec.connect = connect
+        got_task = True
+        try:
+            cluster.execute(('localhost', rig.FARM_PORT),
+                            len(self.workers) + 1, 0, self.rev)
+        except NoWork:
+            got_task = False
+        except ValueError as exc:
+            # "Not the same software revisions!" / wrong message: the worker
+            # was sent away
+            got_task = False
+            state['abort'] = str(exc)
+        finally:
+            (dawgie.pl.worker.LOGGING, dawgie.db.close, rig.PUMP[0],
+             dawgie._verif_run_hook) = saved
+            sec.connect = real_connect
+            dawgie.context.fsm = self.fsm
+            from dawgie.db.shelve.state import DBI
+
+            DBI()._DBI__reopened = False
+            for sk in state['socks']:
+                sk.close()
+            w = state.get('worker')
+            if w is not None:
+                w.closed = True
+        self._scan_workers()
+        u = state['unit']
+        if not got_task or u is None:
+            return None
+        u.answered = True
+        self.reply_job_queued = state.get('queued', True)
+        newset = set()
+        if outcome == 0:
+            newset = {v for v in self.ref.values[u.jobid]}
+        return u, newset, OUTCOMES[outcome]
 
     def expect_after_success(self, u, newset):
         '''(tag, target) pairs that must become pending after this report'''
@@ -773,6 +899,18 @@ class Sim:
                     self.clock.advance(dt + 1)
                 else:
                     self.clock.advance([60, 3600, 86400, 7 * 86400][op[1] % 4])
+        elif kind == 'work':
+            r = self.run_worker(op[1] % 3)
+            if r is not None:
+                ev['unit'], ev['newset'], ev['outcome'] = r
+                ev['job_queued'] = self.reply_job_queued
+                ev['before'] = before = self.work_before
+                self.calls = self.calls[self.work_calls_at:]
+                # checks treat it as the reply it is
+                ev['op'] = ['rep', 'cluster.execute', op[1] % 3]
+                kind = 'rep'
+            else:
+                ev['op'] = ['work-idle', op[1] % 3]
         elif kind == 'exec':
             r = self.execute(op[1])
             if r is not None:
@@ -1020,9 +1158,14 @@ def run_history(case, on_event, at_end=None, pid=None, setup=None):
     A history in which a listed known finding has fired is not evaluated any
     further (its consequences would only be echoes of that finding).'''
     out = core.Outcome()
+    if case.get('real_store'):
+        from . import store as storemod
+
+        storemod.use_real_digest_binaries(False)
     sim = Sim(case['spec'], case['targets'], case.get('bumped', ()),
               auto_workers=case.get('workers', 0),
-              timers=bool(case.get('timers')))
+              timers=bool(case.get('timers')),
+              real_store=bool(case.get('real_store')))
     try:
         if setup is not None:
             setup(sim)
